@@ -391,6 +391,11 @@ def check(run: Run) -> None:
         from . import c03
         R.share(run, "C18.h", c03, ["C03.f"])
 
+    with run.obligation("C18.i", "K2", "a request for the CURRENT time made from the start hook is honoured: the scheduler handed to the hook is `not started` (view.started() is "
+                        "false) - node start_impl sets started only AFTER the user start hook returned (shared with C14.e)"):
+        from . import c14
+        R.share(run, "C18.i", c14, ["C14.e"])
+
 
 def _V(x):
     return x
